@@ -235,8 +235,8 @@ theorem recvRecvHeaders_delivers (s : Streams) (k : Nat) (h : HeadersIn) :
 
 /-! ### `Recv::recv_trailers` -/
 
-/-- what `recv_trailers` may hand over -/
-def TrailersAccepted (h : HeadersIn) (ev : REvent) : Prop := ev = .trailers h.fields
+/-- what `recv_trailers` may hand over: the fields of a block that is not over-size -/
+def TrailersAccepted (h : HeadersIn) (ev : REvent) : Prop := ev = .trailers h.fields ∧ h.isOverSize = false
 
 theorem recvRecvTrailers_delivers (s : Streams) (k : Nat) (h : HeadersIn) :
     Delivers (fun k' ev => k' = k ∧ TrailersAccepted h ev) s (s.recvRecvTrailers k h).1 ∧
@@ -249,7 +249,10 @@ theorem recvRecvTrailers_delivers (s : Streams) (k : Nat) (h : HeadersIn) :
     generalize (s.modStream k fun st => { st with state := ‹State› }) = s1 at q1 ⊢
     split
     · exact ⟨q1.delivers, fun _ _ => q1⟩
-    · refine ⟨q1.then (Delivers.step (delivers_append _ s1 k _ ⟨rfl, rfl⟩) (quiet_modStreamW _ _ _ keeps_notifyRecv)),
-        fun e he => by cases he⟩
+    · split
+      · exact ⟨q1.delivers, fun _ _ => q1⟩
+      · rename_i hov
+        refine ⟨q1.then (Delivers.step (delivers_append _ s1 k _ ⟨rfl, rfl, by simpa using hov⟩)
+          (quiet_modStreamW _ _ _ keeps_notifyRecv)), fun e he => by cases he⟩
 
 end H2V.Lemmas.ConnHttpP
